@@ -408,8 +408,28 @@ mod verif_replay2 {
             let r = read_conference_create_response(&mut Cursor::new(&mut v[..]));
             assert!(r.is_err());
         }
+        // a valid three-block response (core, security, network), then every truncation of it with the announced lengths left intact,
+        // and every single-byte change of its block headers: value or error, never a panic
+        let blocks: Vec<u8> = vec![0x01, 0x0c, 12, 0, 4, 0, 8, 0, 1, 0, 0, 0,   0x02, 0x0c, 12, 0, 0, 0, 0, 0, 0, 0, 0, 0,   0x03, 0x0c, 12, 0, 0xeb, 3, 2, 0, 0xec, 3, 0xed, 3];
+        let mut full = vec![%s];
+        full.push(blocks.len() as u8);
+        full.extend_from_slice(&blocks);
+        assert!(read_conference_create_response(&mut Cursor::new(&mut full.clone()[..])).is_ok(), "a valid three-block response is refused");
+        for cut in 0..full.len() {
+            let mut v = full[..cut].to_vec();
+            let _ = read_conference_create_response(&mut Cursor::new(&mut v[..]));
+        }
+        let start = full.len() - blocks.len();
+        for pos in [0usize, 1, 2, 3, 12, 13, 14, 15, 24, 25, 26, 27].iter() {
+            for val in [0u8, 1, 3, 4, 5, 11, 13, 0x7f, 0x80, 0xff].iter() {
+                let mut v = full.clone();
+                v[start + pos] = *val;
+                let _ = read_conference_create_response(&mut Cursor::new(&mut v[..]));
+                for cut in [v.len() - 1, v.len() - 5, v.len() - 13].iter() { let mut w = v[..*cut].to_vec(); let _ = read_conference_create_response(&mut Cursor::new(&mut w[..])); }
+            }
+        }
     }
-}""" % GCC_PREFIX}}
+}""" % (GCC_PREFIX, GCC_PREFIX)}}
 
 
 from mirq import path_taint, branch_on, calls_on, _mentions
@@ -2387,6 +2407,11 @@ SESSION_NATIVE = _native("verif_replay_session_readers", "src/core/global.rs", "
         pdus.push(wrap(0x13, vec![1, 0, 0, 0, 0xea, 0x03, 0, 0, 0xff, 0xff, 1, 0, 0, 0, 9, 0, 4, 0]));
         pdus.push(wrap(0x16, vec![1, 0, 0, 0, 2, 0, b'x', b'y']));
         for t in 0u16..32 { pdus.push(wrap(0x10 | t, vec![0u8; 24])); pdus.push(wrap(t, vec![0xea, 0x03, 1, 0, 0xea, 0x03, 0, 0, 4, 0, 0, 0, 0, 0])); }
+        // set error info PDU with every code 0..0x400 and a spread of larger ones; every other data PDU type with a short body
+        for code in (0u32..0x400).chain([0x1000u32, 0x10ff, 0x1100, 0xffff, 0x10000, 0x7fffffff, 0x80000000, 0xffffffff].iter().cloned()) {
+            pdus.push(wrap(0x17, data(0x2f, vec![code as u8, (code >> 8) as u8, (code >> 16) as u8, (code >> 24) as u8])));
+        }
+        for t2 in 0u16..256 { pdus.push(wrap(0x17, data(t2 as u8, vec![1, 0, 2, 0, 3, 0, 4, 0]))); }
         for p in pdus.iter() {
             for which in 0..6 {
                 let mut c = Client::new(1007, 1003, 800, 600, KeyboardLayout::US, "x");
@@ -4379,3 +4404,296 @@ def strict_der(ctx, mir, stats):
         obs.append({"id": "cssp:%s:strict-der" % name, "ok": ok, "functions": [f.name for f in fs], "where": name, "needs_native": True, "native": None if ok else DER_NATIVE,
                     "detail": "%s parses through yasna::parse_der / from_der only" % name if ok else "%s parses through %s" % (name, (ber or calls)[:2])})
     return obs
+
+
+# --------------------------------------------------------------------------
+# C03: sec::connect accepts the licence PDU of every conforming server (any security header with SEC_LICENSE_PKT set)
+# --------------------------------------------------------------------------
+def licence_flag_test(ctx, mir, stats):
+    cands = [f for f in mir if f.name == "connect" and "mcs::Client<T>" in f.locals.get("_1", "")]
+    if len(cands) != 1:
+        raise Inconclusive("ENCODING-FAILED: sec::connect not found (%d)" % len(cands))
+    f = cands[0]
+    se = SymExec(f, stats, loop_bound=0, max_paths=8000).run()
+    bad_blocks = set(stmt_blocks(f, r'const "SEC: Invalid Licence packet"'))
+    if not bad_blocks:
+        raise Inconclusive("ENCODING-FAILED: the licence-packet refusal was not found in sec::connect")
+    obs = []
+    n_ref, n_go = 0, 0
+    ok_ref, ok_go = True, True
+    F = None
+    for p in se.finished:
+        cast = [e for e in p.events if e[0] == "assign" and re.search(r"as U16\)\.0: u16\)", e[3]) and e[4] is not None]
+        if not cast:
+            continue
+        F = cast[0][4]
+        refused = any(b in bad_blocks for b in p.trace)
+        went_on = bool(calls_on(p.events, r"(^|::)client_connect($|::<)"))
+        lic = z3.BitVecVal(0x0080, F.size())
+        if refused:
+            n_ref += 1
+            verdict, mdl, smt = se.check(p, [(F & lic) != 0], "refused only without SEC_LICENSE_PKT")
+            cvc5_check(smt, verdict, stats)
+            ok_ref = ok_ref and verdict == "unsat"
+        elif went_on:
+            n_go += 1
+            verdict, mdl, smt = se.check(p, [(F & lic) == 0], "continues only with SEC_LICENSE_PKT")
+            ok_go = ok_go and verdict == "unsat"
+    if F is None:
+        raise Inconclusive("ENCODING-FAILED: the security flags read in sec::connect were not recognised")
+    obs.append({"id": "sec-connect:licence-refused-only-without-flag", "ok": ok_ref and n_ref > 0, "functions": [f.name], "where": "sec::connect", "needs_native": False,
+                "detail": "the licence PDU is refused only when SEC_LICENSE_PKT (0x0080) is absent from its security flags: every other flag combination a server may add is accepted (SMT over all 65536 values)" if ok_ref and n_ref > 0 else
+                "sec::connect refuses a security header that has SEC_LICENSE_PKT set (e.g. with SEC_LICENSE_ENCRYPT_CS or SEC_FLAGSHI_VALID added): conforming servers are turned away"})
+    obs.append({"id": "sec-connect:licence-required", "ok": ok_go and n_go > 0, "functions": [f.name], "where": "sec::connect", "needs_native": False,
+                "detail": "the licensing exchange is entered only when SEC_LICENSE_PKT is set" if ok_go and n_go > 0 else "the licensing exchange can be entered without SEC_LICENSE_PKT"})
+    return obs
+
+
+# --------------------------------------------------------------------------
+# C07: the SEQUENCE OF callback given to yasna consumes an element whenever it reports success
+# --------------------------------------------------------------------------
+MANY_TOKENS_NATIVE = _native("verif_replay_cssp_many_tokens", "src/nla/cssp.rs", """
+        // TSRequests with 0..40 negoTokens: each parse ends (value or error) within a deadline
+        for n in 0usize..41 {
+            let mut tokens = SequenceOf::new();
+            for i in 0..n { tokens.inner.push(Box::new(sequence!["negoToken" => ExplicitTag::new(Tag::context(0), vec![i as u8; 3] as OctetString)])); }
+            let msg = to_der(&sequence![
+                "version" => ExplicitTag::new(Tag::context(0), 2 as Integer),
+                "negoTokens" => ExplicitTag::new(Tag::context(1), tokens)
+            ]);
+            let (tx, rx) = std::sync::mpsc::channel();
+            std::thread::spawn(move || { let r = read_ts_server_challenge(&msg).map(|v| v.len()); let _ = tx.send(r.is_ok()); });
+            match rx.recv_timeout(std::time::Duration::from_secs(6)) {
+                Err(_) => panic!("read_ts_server_challenge did not return for a TSRequest with {} negoTokens", n),
+                Ok(ok) => assert!(ok == (n > 0), "TSRequest with {} negoTokens: unexpected result", n)
+            }
+        }""")
+
+
+def sequence_of_callback(ctx, mir, stats):
+    """E3 over the closure SequenceOf::read_asn1 hands to yasna's read_sequence_of (which calls it until it fails without consuming):
+    every path that returns Ok has read one element from the reader it was given, except the path on which the list has no element factory."""
+    cands = [f for f in mir if re.match(r"^asn1::<impl at src/nla/asn1\.rs[^>]*>::read_asn1::\{closure#0\}$", f.name) and "BERReader" in f.locals.get("_2", "") and "SequenceOf" in " ".join(f.locals.values())]
+    if len(cands) != 1:
+        cands = [f for f in mir if re.match(r"^asn1::<impl at src/nla/asn1\.rs:76[^>]*>::read_asn1::\{closure#0\}$", f.name)]
+    if len(cands) != 1:
+        raise Inconclusive("ENCODING-FAILED: the SEQUENCE OF element callback was not found (%d candidates)" % len(cands))
+    f = cands[0]
+    se = SymExec(f, stats, loop_bound=0, max_paths=4000).run()
+    silent = []
+    n_ok = 0
+    for p in se.finished:
+        ret = _last_assign_to_ret(p) or ""
+        if not re.match(r"Result::<\(\), (yasna::)?ASN1Error>::Ok\(", ret):
+            continue
+        n_ok += 1
+        reads = [ev for i, ev in calls_on(p.events, r"::read_asn1$") if re.search(r"\b_2\b", " ".join(ev[4]))]
+        if reads:
+            continue
+        none_edge = False
+        for ev in p.events:
+            if ev[0] == "branch":
+                d = [e for e in p.events if e[0] == "assign" and e[2].strip() == re.sub(r"^(move|copy) ", "", ev[4]).strip() and e[3].startswith("discriminant(")]
+                if d and ev[2] == "0":
+                    lm = re.search(r"discriminant\(\(?\*?(_\d+)\)?\)", d[0][3])
+                    ty = f.locals.get(lm.group(1), "") if lm else ""
+                    if re.search(r"Option<.*Box<dyn .*Fn\(", d[0][3] + " " + ty):
+                        none_edge = True
+        if not none_edge:
+            silent.append(p.trace[-6:])
+    ok = n_ok > 0 and not silent
+    return [{"id": "asn1:sequence-of-callback-consumes", "ok": ok, "functions": [f.name], "where": f.name, "needs_native": True, "native": None if ok else MANY_TOKENS_NATIVE,
+             "detail": "every successful return of the SEQUENCE OF callback has read an element from the reader (yasna repeats the callback until it fails without consuming)" if ok else
+             "the SEQUENCE OF callback can return Ok without reading from the reader (%s): yasna's read_sequence_of then calls it forever" % silent[:1]}]
+
+
+# --------------------------------------------------------------------------
+# C10 / C06 / C07: when a flag field makes the container skip an optional field
+# --------------------------------------------------------------------------
+SKIP_TABLE = {
+    ("ts_bitmap_data", "bitmapComprHdr"): (lambda v: z3.Or((v & 0x0001) == 0, (v & 0x0400) != 0), "bitmapComprHdr is absent exactly when BITMAP_COMPRESSION (0x0001) is clear or NO_BITMAP_COMPRESSION_HDR (0x0400) is set (MS-RDPBCGR 2.2.9.1.1.3.1.2.2)"),
+    ("negotiate_message", "Version"): (lambda v: (v & 0x02000000) == 0, "Version is present exactly when NTLMSSP_NEGOTIATE_VERSION is set (MS-NLMP 2.2.1.1)"),
+    ("challenge_message", "Version"): (lambda v: (v & 0x02000000) == 0, "Version is present exactly when NTLMSSP_NEGOTIATE_VERSION is set (MS-NLMP 2.2.1.2)"),
+    ("authenticate_message", "Version"): (lambda v: (v & 0x02000000) == 0, "Version is present exactly when NTLMSSP_NEGOTIATE_VERSION is set (MS-NLMP 2.2.1.3)"),
+}
+
+
+def skip_table(only=None):
+    def fn(ctx, mir, stats):
+        obs = []
+        seen = set()
+        for g in mir:
+            m = re.match(r"^(\w+)::\{closure#\d+\}$", g.name)
+            if not m or not (g.ret or "").endswith("MessageOption"):
+                continue
+            owner = m.group(1)
+            keys = [k for k in SKIP_TABLE if k[0] == owner and (only is None or re.search(only, owner))]
+            if not keys:
+                continue
+            ce = SymExec(g, stats, call_model=closure_call_model).run()
+            rows = []
+            for q in ce.finished:
+                ret = None
+                for k, ev in enumerate(q.events):
+                    if ev[0] == "assign" and ev[2].strip() == "_0":
+                        if ev[3].startswith("MessageOption::SkipField("):
+                            parts = split_top(ev[3][len("MessageOption::SkipField("):-1])
+                            nm = re.search(r'const "(\w+)"', resolve_source(q.events, k, parts[0], depth=6))
+                            ret = ("skip", nm.group(1) if nm else "?")
+                        elif ev[3].startswith("MessageOption::None"):
+                            ret = ("none", None)
+                        else:
+                            ret = ("other", ev[3][:40])
+                fv = q.env.get("field.inner") if q.env.get("field.inner") is not None else q.env.get("field.deref")
+                rows.append((q, ret, fv))
+            for key in keys:
+                if not any(ret == ("skip", key[1]) for _q, ret, _fv in rows):
+                    continue      # another closure of the same constructor (a size announcement)
+                pred, why = SKIP_TABLE[key]
+                ok = True
+                cex = None
+                found = False
+                for q, ret, fv in rows:
+                    if ret is None or fv is None:
+                        ok = False
+                        continue
+                    if ret == ("skip", key[1]):
+                        found = True
+                        verdict, mdl, smt = ce.check(q, [z3.Not(pred(fv))], "skips only when absent")
+                    elif ret[0] == "none":
+                        verdict, mdl, smt = ce.check(q, [pred(fv)], "reads only when present")
+                    else:
+                        continue
+                    cvc5_check(smt, verdict, stats)
+                    if verdict != "unsat":
+                        ok, cex = False, mdl
+                seen.add(key)
+                obs.append({"id": "skip:%s.%s" % key, "ok": ok and found, "functions": [g.name], "where": g.name, "cex": cex, "needs_native": False,
+                            "detail": "for every value of the flag field: %s (SMT)" % why if ok and found else "for flag value %s the container is not told what the structure says: %s" % (cex, why)})
+        missing = [k for k in SKIP_TABLE if k not in seen and (only is None or re.search(only, k[0]))]
+        if missing:
+            obs.append({"id": "skip:all-found", "ok": False, "functions": [], "where": "record constructors", "needs_native": True, "native": None, "detail": "flag fields without a recognised skip decision: %s" % missing})
+        return obs
+    return fn
+
+
+# --------------------------------------------------------------------------
+# C17: every Connector builder method writes only the setting it is named after
+# --------------------------------------------------------------------------
+BUILDER_FIELDS = {"screen": {"width", "height"}, "credentials": {"domain", "username", "password"}, "set_restricted_admin_mode": {"restricted_admin_mode"},
+                  "set_password_hash": {"password_hash"}, "layout": {"layout"}, "auto_logon": {"auto_logon"}, "blank_creds": {"blank_creds"},
+                  "check_certificate": {"check_certificate"}, "name": {"name"}, "use_nla": {"use_nla"}}
+MODE_FLAGS = {"restricted_admin_mode", "auto_logon", "blank_creds", "check_certificate", "use_nla"}
+
+BUILDER_NATIVE = _native("verif_replay_connector_builders", "src/core/client.rs", """
+        // each builder call changes only its own setting, whatever the order of the calls
+        let flags = |c: &Connector| (c.restricted_admin_mode, c.auto_logon, c.blank_creds, c.check_certificate, c.use_nla);
+        let base = flags(&Connector::new());
+        assert_eq!(flags(&Connector::new().screen(10, 20)), base, "screen changes a mode flag");
+        assert_eq!(flags(&Connector::new().credentials("d".to_string(), "u".to_string(), "p".to_string())), base, "credentials changes a mode flag");
+        assert_eq!(flags(&Connector::new().set_password_hash(vec![1, 2, 3])), base, "set_password_hash changes a mode flag");
+        assert_eq!(flags(&Connector::new().layout(KeyboardLayout::French)), base, "layout changes a mode flag");
+        assert_eq!(flags(&Connector::new().name("n".to_string())), base, "name changes a mode flag");
+        for v in [false, true].iter() {
+            assert_eq!(flags(&Connector::new().set_restricted_admin_mode(*v)), (*v, base.1, base.2, base.3, base.4));
+            assert_eq!(flags(&Connector::new().auto_logon(*v)), (base.0, *v, base.2, base.3, base.4));
+            assert_eq!(flags(&Connector::new().blank_creds(*v)), (base.0, base.1, *v, base.3, base.4));
+            assert_eq!(flags(&Connector::new().check_certificate(*v)), (base.0, base.1, base.2, *v, base.4));
+            assert_eq!(flags(&Connector::new().use_nla(*v)), (base.0, base.1, base.2, base.3, *v));
+            // the order used by the GUI client: mode first, then the hash
+            assert_eq!(flags(&Connector::new().set_restricted_admin_mode(*v).set_password_hash(vec![9; 16])).0, *v, "set_password_hash after set_restricted_admin_mode changes the mode");
+        }
+        let c = Connector::new().credentials("d".to_string(), "u".to_string(), "p".to_string()).set_password_hash(vec![7; 16]).screen(1, 2).name("x".to_string());
+        assert_eq!((c.domain.as_str(), c.username.as_str(), c.password.as_str(), c.width, c.height, c.name.as_str()), ("d", "u", "p", 1, 2, "x"));
+        assert_eq!(c.password_hash, Some(vec![7; 16]));""")
+
+
+def connector_builders(ctx, mir, stats):
+    new = find_fn(mir, r"^client::<impl at src/core/client\.rs[^>]*>::new$")
+    agg = None
+    for b in new.order:
+        for s_ in new.blocks[b].stmts:
+            m = re.match(r"^_0 = Connector \{ (.*) \};$", s_.strip())
+            if m:
+                agg = m.group(1)
+    if not agg:
+        raise Inconclusive("ENCODING-FAILED: the Connector aggregate of Connector::new was not found")
+    names = [x.split(":")[0].strip() for x in split_top(agg)]
+    obs = []
+    seen = set()
+    for f in mir:
+        m = re.match(r"^client::<impl at src/core/client\.rs[^>]*>::(\w+)$", f.name)
+        if not m or f.locals.get("_1", "") != "Connector" or (f.ret or "").strip() != "Connector":
+            continue
+        name = m.group(1)
+        seen.add(name)
+        written = set()
+        direct = True
+        for b in f.order:
+            if f.blocks[b].cleanup:
+                continue
+            for s_ in f.blocks[b].stmts:
+                mm = re.match(r"^\(_1\.(\d+): [^)]*\) = (.*);$", s_.strip())
+                if mm:
+                    idx = int(mm.group(1))
+                    written.add(names[idx] if idx < len(names) else "#%d" % idx)
+                    if (names[idx] if idx < len(names) else "") in MODE_FLAGS and not re.match(r"^(copy|move) _2$", mm.group(2).strip()):
+                        direct = False
+            t = f.blocks[b].t
+            if t and t["kind"] == "drop":
+                pass
+        allowed = BUILDER_FIELDS.get(name)
+        ok = allowed is not None and written <= allowed and (written or name not in BUILDER_FIELDS) and direct
+        obs.append({"id": "connector:%s-writes-only-its-setting" % name, "ok": ok, "functions": [f.name], "where": f.name, "needs_native": True, "native": None if ok else BUILDER_NATIVE,
+                    "detail": "Connector::%s writes %s and nothing else" % (name, sorted(written)) if ok else
+                    "Connector::%s writes %s (expected only %s%s): a configuration call changes a setting the caller did not choose" % (name, sorted(written), sorted(allowed or []), "" if direct else ", a mode flag is not set from the argument itself")})
+    missing = sorted(set(BUILDER_FIELDS) - seen)
+    obs.append({"id": "connector:all-builders-found", "ok": not missing, "functions": [], "where": "src/core/client.rs", "needs_native": True, "native": None if not missing else BUILDER_NATIVE,
+                "detail": "all %d builder methods recognised" % len(BUILDER_FIELDS) if not missing else "builder methods not recognised: %s" % missing})
+    return obs
+
+
+# --------------------------------------------------------------------------
+# C15 / C16: RC4 key schedule (Rc4::new)
+# --------------------------------------------------------------------------
+RC4_NATIVE = _native("verif_replay_rc4_reference", "src/nla/rc4.rs", """
+        // textbook RC4 (KSA + PRGA) written here independently; keys of every length class, 1024 bytes of keystream each
+        fn reference(key: &[u8], n: usize) -> Vec<u8> {
+            let mut s: Vec<u8> = (0..256).map(|i| i as u8).collect();
+            let mut j: usize = 0;
+            for i in 0..256 { j = (j + s[i] as usize + key[i % key.len()] as usize) % 256; s.swap(i, j); }
+            let (mut i, mut j) = (0usize, 0usize);
+            let mut out = vec![];
+            for _ in 0..n { i = (i + 1) % 256; j = (j + s[i] as usize) % 256; s.swap(i, j); out.push(s[(s[i] as usize + s[j] as usize) % 256]); }
+            out
+        }
+        // published vectors first (the reference itself must be right): RC4("Key"), RC4("Wiki"), RC4("Secret")
+        assert_eq!(&reference(b"Key", 10)[..], &[0xEB, 0x9F, 0x77, 0x81, 0xB7, 0x34, 0xCA, 0x72, 0xA7, 0x19][..]);
+        assert_eq!(&reference(b"Wiki", 6)[..], &[0x60, 0x44, 0xDB, 0x6D, 0x41, 0xB7][..]);
+        assert_eq!(&reference(b"Secret", 8)[..], &[0x04, 0xD4, 0x6B, 0x05, 0x3C, 0xA8, 0x7B, 0x59][..]);
+        let mut keys: Vec<Vec<u8>> = vec![b"Key".to_vec(), b"Wiki".to_vec(), b"Secret".to_vec(), vec![0], vec![0xff], vec![1, 2, 3, 4, 5], (0u8..16).collect(), (0u32..256).map(|i| (i * 7 + 1) as u8).collect()];
+        for seed in 0u32..64 { keys.push((0..16).map(|i| (seed.wrapping_mul(2654435761u32).wrapping_add((i as u32).wrapping_mul(40503)) >> 13) as u8).collect()); }
+        for key in keys.iter() {
+            let zeros = vec![0u8; 1024];
+            let mut out = vec![0u8; 1024];
+            let mut c = Rc4::new(key);
+            c.process(&zeros[..500], &mut out[..500]);
+            c.process(&zeros[500..], &mut out[500..]);
+            assert_eq!(out, reference(key, 1024), "keystream for key {:?}", key);
+        }""")
+
+
+def rc4_key_schedule(ctx, mir, stats):
+    f = find_fn(mir, r"^rc4::<impl at src/nla/rc4\.rs[^>]*>::new$")
+    stmts = [s_.strip() for b in f.order if not f.blocks[b].cleanup for s_ in f.blocks[b].stmts]
+    ranges = [s_ for s_ in stmts if re.search(r"= (std::ops::)?Range::<\w+> \{ start: .*, end: .* \};$", s_) or re.search(r"RangeInclusive::<\w+>::new\(", s_)]
+    ksa = [s_ for s_ in ranges if re.search(r"Range::<usize> \{ start: const 0_usize, end: const 256_usize \}", s_)]
+    adds = [f.blocks[b].t["func"] for b in f.order if f.blocks[b].t and f.blocks[b].t["kind"] == "call" and not f.blocks[b].cleanup and re.search(r"<impl u8>::wrapping_add$", f.blocks[b].t["func"])]
+    swaps = [f.blocks[b].t for b in f.order if f.blocks[b].t and f.blocks[b].t["kind"] == "call" and not f.blocks[b].cleanup and re.search(r"<impl \[u8\]>::swap$", f.blocks[b].t["func"])]
+    rems = [s_ for s_ in stmts if re.search(r"= Rem\(", s_)]
+    en = [f.blocks[b].t["func"] for b in f.order if f.blocks[b].t and f.blocks[b].t["kind"] == "call" and re.search(r"::enumerate$|Enumerate<", f.blocks[b].t["func"])]
+    other_loops = [s_ for s_ in ranges if s_ not in ksa]
+    ok = len(ksa) == 1 and not other_loops and len(adds) == 2 and len(swaps) == 1 and len(rems) == 1 and bool(en)
+    return [{"id": "rc4:key-schedule-shape", "ok": ok, "functions": [f.name], "where": f.name, "needs_native": True, "native": None if ok else RC4_NATIVE,
+             "detail": "Rc4::new: identity permutation, then one pass i = 0..256 with j += S[i] + key[i mod len] (wrapping) and swap(S[i], S[j])" if ok else
+             "Rc4::new is not the textbook key schedule (pass over 0..256: %d, other ranges %s, wrapping_add %d, swap %d, modulo %d)" % (len(ksa), other_loops[:2], len(adds), len(swaps), len(rems))}]
